@@ -31,7 +31,12 @@ import (
 	"github.com/EdgeCast/vflow/reader"
 )
 
-type nonfatalError error
+// nonfatalError marks an error after which the message is still usable. No error of this
+// decoder is one: a packet that carries fewer octets than its header announces yields no
+// flow at all, so every error makes Decode return (nil, err).
+type nonfatalError struct {
+	error
+}
 
 // PacketHeader represents Netflow v5 packet header
 // Based on docs at https://www.plixer.com/support/netflow-v5/
